@@ -1,7 +1,7 @@
 (* Property C03 — lexing terminates, makes progress and tiles the input.
    Only final statements; proofs in Engine/LexProofs.v. *)
-From Coq Require Import List NArith.
-From LogosV Require Import Engine.Model Engine.Cert Engine.CertProofs Engine.SpecProofs Engine.StopProofs Engine.LexProofs Engine.Run.
+From Coq Require Import List NArith FMapPositive.
+From LogosV Require Import Engine.Model Engine.Cert Engine.CertProofs Engine.SpecProofs Engine.StopProofs Engine.LexProofs Engine.Run Engine.Prog Engine.StreamProg.
 Import ListNotations.
 Local Open Scope N_scope.
 
@@ -30,3 +30,16 @@ Proof. exact C03_none_absorbing_proof. Qed.
 Theorem C03_fb_str_ok : forall (w : list byte) i,
   i <= N.of_nat (length w) -> i <= fb_str w i /\ fb_str w i <= N.of_nat (length w).
 Proof. exact fb_str_ok. Qed.
+
+(* the same for the program the code generator emits (translator K12, checker prog_ok): lexing with the emitted
+   program terminates, makes progress and tiles the input *)
+Theorem C03_emitted_tiling : forall U g p,
+  prog_ok g p = true -> wf_graph g = true ->
+  forall d V R D, dfa_ok d = true -> sim_ok d g V D = true -> exact_ok d g V R D = true ->
+  forall act fb (w : list byte), bytes_ok w ->
+  (forall l s e, s < e -> e <= N.of_nat (length w) -> e + snd (act l s e) <= N.of_nat (length w)) ->
+  (forall i, i <= N.of_nat (length w) -> i <= fb i /\ fb i <= N.of_nat (length w)) ->
+  exists rs, lex_all (fun ip s r => fst (attempt_prog U p (PositiveMap.cardinal (g_states g)) ip s r)) act fb w false
+             = (rs, Finished (N.of_nat (length w)) (N.of_nat (length w)))
+             /\ tiles rs 0 (N.of_nat (length w)).
+Proof. exact emitted_tiles. Qed.
